@@ -473,13 +473,19 @@ func (x *Exec) call(caller *frame, callpos token.Pos, fn value, args []value) va
 	panic(unsupported{fmt.Sprintf("cannot call %T", fn)})
 }
 
+// useBody is returned by an intrinsic that does not apply to its arguments: the real body runs instead.
+type useBody struct{}
+
 func (x *Exec) callSSA(caller *frame, callpos token.Pos, fn *ssa.Function, args []value, env []value) value {
 	fr := &frame{x: x, caller: caller, fn: fn}
 	if fn.Parent() == nil {
 		name := fn.String()
 		if in := intrinsics[name]; in != nil {
-			x.stubsSeen[name]++
-			return in(x, fr, args)
+			r := in(x, fr, args)
+			if _, body := r.(useBody); !body {
+				x.stubsSeen[name]++
+				return r
+			}
 		}
 		if fn.Blocks == nil {
 			if x.inInit {
